@@ -194,4 +194,44 @@ Proof.
   rewrite A1, A2, B1, B2, Hc. auto.
 Qed.
 
+
+(* ---------------------------------------------------------------- histories compose *)
+(* running h1 ++ h2 is running h1 and then h2 from the state h1 left: the theorems above, stated for objects that exist when
+   a history starts, apply to any suffix of a longer history -- in particular to an object from the moment ENew creates it *)
+Theorem run_hist_app : forall (h1 h2 : list event) g insts,
+  runH (h1 ++ h2) g insts =
+  (fst (fst (runH h1 g insts)) ++ fst (fst (runH h2 (snd (fst (runH h1 g insts))) (snd (runH h1 g insts)))),
+   snd (fst (runH h2 (snd (fst (runH h1 g insts))) (snd (runH h1 g insts)))),
+   snd (runH h2 (snd (fst (runH h1 g insts))) (snd (runH h1 g insts)))).
+Proof.
+  induction h1 as [|e h1 IH]; intros h2 g insts.
+  - simpl. destruct (runH h2 g insts) as [[os g2] i2]. reflexivity.
+  - destruct e as [ip sk a|f|s']; simpl.
+    + destruct (callG (idenv gstate) ip sk (resolve gstate a insts) g) as [o g1].
+      rewrite (IH h2 g1 (writeback gstate value a o insts)).
+      destruct (runH h1 g1 (writeback gstate value a o insts)) as [[os1 g1'] i1]. simpl.
+      destruct (runH h2 g1' i1) as [[os2 g2] i2]. reflexivity.
+    + rewrite (IH h2 (f g) insts). destruct (runH h1 (f g) insts) as [[os1 g1'] i1]. simpl.
+      destruct (runH h2 g1' i1) as [[os2 g2] i2]. reflexivity.
+    + rewrite (IH h2 g (insts ++ [seed s'])). destruct (runH h1 g (insts ++ [seed s'])) as [[os1 g1'] i1]. simpl.
+      destruct (runH h2 g1' i1) as [[os2 g2] i2]. reflexivity.
+Qed.
+
+(* an object created by ENew s at the end of a prefix, then threaded through the calls of the rest *)
+Theorem history_new_instance_thread : forall (h1 h2 : list event) g insts s,
+  let k := length (snd (runH h1 g insts)) in
+  forallb (fun c => global_free_w (snd c)) (calls_on k h2) = true ->
+  nth_error (snd (runH (h1 ++ ENew s :: h2) g insts)) k = Some (snd (thread (seed s) (calls_on k h2))) /\
+  outcomes_on k h2 (fst (fst (runH h2 (snd (fst (runH h1 g insts))) (snd (runH h1 g insts) ++ [seed s])))) =
+    fst (thread (seed s) (calls_on k h2)).
+Proof.
+  intros h1 h2 g insts s k Hw.
+  assert (Hk : nth_error (snd (runH h1 g insts) ++ [seed s]) k = Some (seed s)).
+  { unfold k. rewrite nth_error_app2 by lia. now rewrite Nat.sub_diag. }
+  destruct (history_instance_thread h2 (snd (fst (runH h1 g insts))) _ k (seed s) Hk Hw) as [A B].
+  split; [|exact A].
+  rewrite run_hist_app. cbn [snd]. simpl runH at 1.
+  destruct (runH h2 (snd (fst (runH h1 g insts))) (snd (runH h1 g insts) ++ [seed s])) as [[os2 g2] i2]. exact B.
+Qed.
+
 End H2.
